@@ -3,12 +3,14 @@
 # (lib/seed.sh) and runs the property's check against the mutated checkout (lib/mutcheck.sh). Results in
 # /tmp/mut-out/<ID>/m<k>/result.txt and appended to /tmp/mut-out/queue.log. Stop with: touch /tmp/mut-out/STOP
 cd /verif
+FILTER=${1:-C*}
 while [ ! -e /tmp/mut-out/STOP ]; do
   did=0
   for d in /tmp/mut-out/C*/m*; do
     [ -e $d/patch.diff ] && [ -e $d/meta.json ] || continue
     [ -e $d/result.txt ] && continue
     P=$(basename $(dirname $d)); M=$(basename $d)
+    case "$P" in $FILTER) ;; *) continue;; esac
     did=1
     if [ ! -e /verif/seeded/$P-$M/meta.json ]; then
       lib/seed.sh $P $M > $d/seed.log 2>&1
